@@ -7,12 +7,29 @@
 (*   accepted iff every channel equals Rect(kind, fmt, x) exactly          *)
 (*   (whenever the negated amplitude is representable: the property's      *)
 (*   domain; outside it nothing is required).                              *)
-(* comp "env": {"cfg":{fmt,ch,det,n,attack,release,nza,nzr,via,srclen},    *)
-(*              "o":{ga,gr}}                                               *)
+(*   a.by = "fn" (free functions) | "trait" (the Rectifier impls).         *)
+(* comp "env": {"cfg":{fmt,ch,det,n,attack,release,nza,nzr,via,srclen,     *)
+(*                     src,ctor,store}, "o":{ga,gr}}                       *)
 (*   det in full|pos|neg (peak) or rms (window n); times in quarter frames *)
-(*   events env_next{a:{x}, o:{det}} -> r.v ;                              *)
-(*          env_set{a:{which,tq,nz}, o:{hint}}                             *)
-(*   (env_sig_* = the same through the signal adaptor).                    *)
+(*   ctor = constructor entry point (named | new | rect | from), store =   *)
+(*   ring storage of an RMS detector, src = source signal of an adaptor    *)
+(*   run: all denote the same detector (EnvNew).                           *)
+(*   An execution owns a growing list of detector INSTANCES (`ins`); every *)
+(*   event names the one it acts on (a.i).  Instance 0 is built by the     *)
+(*   header: the bare Detector (via "direct") or the detect_envelope       *)
+(*   adaptor (via "signal").  Events of a bare detector are env_*, those   *)
+(*   of an adaptor env_sig_*:                                              *)
+(*     env_next{a:{i,x}, o:{det}} -> r.v ;                                 *)
+(*     env_set{a:{i,which,tq,nz}, o:{hint}}                                *)
+(*     env_clone{a:{i,j}}: instance j (= the number of instances so far)   *)
+(*       is a Clone of i and starts with EXACTLY i's abstract state        *)
+(*       (EnvClone: envelope, both gains, RMS window); afterwards an event *)
+(*       changes its own instance only and every instance is judged        *)
+(*       against its own history.                                          *)
+(*     env_move / env_wrap / env_sig_parts {a:{i}}: the instance is moved  *)
+(*       in memory / the bare detector is put on the adaptor / the adaptor *)
+(*       is taken apart (into_parts) and its detector goes on: the         *)
+(*       abstract state is untouched.                                      *)
 (*   nza / nzr / nz = 1: the zero time was handed over as IEEE negative    *)
 (*   zero (-0.0 = 0, -0.0 >= 0: inside "attack and release times >= 0").   *)
 (*   It is the time 0 to the model: gain 0, envelope = detected value.     *)
@@ -35,11 +52,13 @@ Rec == ndJsonDeserialize(IOEnv.TRACE)
 
 VARIABLES l,      \* next line
           cf,     \* header of the current execution
-          g,      \* [a, r]: attack / release gain (dyadics)
-          prev,   \* previous envelope output per channel (dyadics)
-          rs,     \* RMS detection: per channel [win, sum, bud]; << >> otherwise
+          ins,    \* detector instances: sequence of
+                  \*   [g |-> [a, r] attack / release gain (dyadics),
+                  \*    prev |-> previous envelope output per channel (dyadics),
+                  \*    rs |-> RMS detection: per channel [win, sum, bud, ex]; << >> otherwise,
+                  \*    via |-> "direct" | "signal"]
           skip
-vars == << l, cf, g, prev, rs, skip >>
+vars == << l, cf, ins, skip >>
 Ev == Rec[l]
 NoCfg == [comp |-> "none"]
 
@@ -54,7 +73,7 @@ AsD(f, j) == IF IsFloat(f) THEN Dec(FmtOf(f), j) ELSE DFromS(SFromJson(j))
 (* rectifiers *)
 RectAccept(c) ==
   LET k == Ev.a.kind x == Ev.a.x of == RectFmt(k, c.fmt) IN
-  /\ k \in {"full", "pos", "neg"} /\ FrameOK(c.fmt, c.ch, x)
+  /\ k \in {"full", "pos", "neg"} /\ Ev.a.by \in {"fn", "trait"} /\ FrameOK(c.fmt, c.ch, x)
   /\ IF \A i \in 1..c.ch : RectDefined(k, c.fmt, SampleFromJson(c.fmt, x[i]))
        THEN /\ Ev.r.k = "val" /\ FrameOK(of, c.ch, Ev.r.v)
             /\ \A i \in 1..c.ch : SameSample(of, SampleFromJson(of, Ev.r.v[i]),
@@ -70,12 +89,16 @@ EnvResetOK(c) ==
   /\ c.via \in {"direct", "signal"} /\ (c.det = "rms" => c.n >= 1)
   /\ c.attack >= 0 /\ c.release >= 0
   /\ c.nza \in {0, 1} /\ c.nzr \in {0, 1} /\ (c.nza = 1 => c.attack = 0) /\ (c.nzr = 1 => c.release = 0)
-  /\ c.srclen >= -1 /\ (c.srclen >= 0 => c.via = "signal")
+  /\ c.srclen >= -1 /\ (c.srclen >= 0 => c.via = "signal" /\ c.src = "iter")
+  /\ c.src \in {"iter", "gen"} /\ c.ctor \in {"named", "new", "rect", "from"} /\ c.store \in {"vec", "box"}
   /\ Ev.r.k = "unit" /\ Ev.o.ok
   /\ HintOK(c.attack, Ev.o.ga) /\ HintOK(c.release, Ev.o.gr)
 
+\* the instance the event acts on
+IdxOK == Ev.a.i >= 0 /\ Ev.a.i < Len(ins)
+Me == ins[Ev.a.i + 1]
 \* RMS detection: state after feeding the frame
-RmsAfter(c, x) == [i \in 1..c.ch |-> TPush(FmtOf(FloatOf(c.fmt)), ConvSlack(c.fmt), rs[i], AmpD(c.fmt, SampleFromJson(c.fmt, x[i])))]
+RmsAfter(c, x) == [i \in 1..c.ch |-> TPush(FmtOf(FloatOf(c.fmt)), ConvSlack(c.fmt), Me.rs[i], AmpD(c.fmt, SampleFromJson(c.fmt, x[i])))]
 DetOK(c, x, d, rsn) ==
   IF c.det = "rms"
     THEN \A i \in 1..c.ch : AcceptRootStd(FmtOf(FloatOf(c.fmt)), ConvSlack(c.fmt), rsn[i], d[i])
@@ -85,8 +108,8 @@ DetOK(c, x, d, rsn) ==
 OutOK(c, d, out) ==
   LET of == OutFmt(c) IN
   \A i \in 1..c.ch :
-    IF IsFloat(of) THEN EnvAcceptF(FmtOf(of), prev[i], AsD(of, d[i]), g.a, g.r, AsD(of, out[i]))
-                   ELSE EnvAcceptI(prev[i], AsD(of, d[i]), g.a, g.r, AsD(of, out[i]))
+    IF IsFloat(of) THEN EnvAcceptF(FmtOf(of), Me.prev[i], AsD(of, d[i]), Me.g.a, Me.g.r, AsD(of, out[i]))
+                   ELSE EnvAcceptI(Me.prev[i], AsD(of, d[i]), Me.g.a, Me.g.r, AsD(of, out[i]))
 NextOK(c, rsn) ==
   LET x == Ev.a.x d == Ev.o.det of == OutFmt(c) IN
   /\ FrameOK(c.fmt, c.ch, x) /\ FrameOK(of, c.ch, d)
@@ -96,9 +119,22 @@ NextOK(c, rsn) ==
 SetOK == /\ Ev.a.which \in {"attack", "release"} /\ Ev.a.tq >= 0
          /\ Ev.a.nz \in {0, 1} /\ (Ev.a.nz = 1 => Ev.a.tq = 0)      \* -0.0 is the time 0
          /\ Ev.r.k = "unit" /\ HintOK(Ev.a.tq, Ev.o.hint)
+\* the new instance gets the next free index.  An adaptor over dasp's from_iter would, cloned, replay the remaining
+\* frames of the original: adaptors are cloned over the queue source only (the logged inputs are then the real ones)
+CloneOK == /\ Ev.a.j = Len(ins) /\ Ev.r.k = "unit"
+           /\ (Me.via = "signal" => cf.src = "gen")
+\* the copy: EnvClone of the follower state, RmsClone of the detection's window (Envelope.tla / Rms.tla)
+CloneOf(me) ==
+  LET c == EnvClone([env |-> me.prev, gA |-> me.g.a, gR |-> me.g.r]) IN
+  [g |-> [a |-> c.gA, r |-> c.gR], prev |-> c.env, rs |-> [i \in DOMAIN me.rs |-> RmsClone(me.rs[i])], via |-> me.via]
 
-IsNext == Ev.ev = (IF cf.via = "signal" THEN "env_sig_next" ELSE "env_next")
-IsSet  == Ev.ev = (IF cf.via = "signal" THEN "env_sig_set" ELSE "env_set")
+Named(base) == Ev.ev = (IF Me.via = "signal" THEN "env_sig_" ELSE "env_") \o base
+IsNext  == Named("next")
+IsSet   == Named("set")
+IsClone == Named("clone")
+IsMove  == Named("move")
+IsWrap  == Ev.ev = "env_wrap" /\ Me.via = "direct"
+IsParts == Ev.ev = "env_sig_parts" /\ Me.via = "signal"
 HeapOK == Ev.h = << 0, 0, 0 >>
 
 ---------------------------------------------------------------------------
@@ -109,41 +145,50 @@ TReset ==
   /\ LET c == Ev.cfg IN
      CASE Ev.comp = "rect" ->
             IF c.fmt \in AllFormats /\ c.ch >= 1 /\ Ev.r.k = "unit"
-              THEN cf' = [comp |-> "rect", fmt |-> c.fmt, ch |-> c.ch] /\ skip' = FALSE /\ UNCHANGED << g, prev, rs >>
-              ELSE Reject /\ cf' = NoCfg /\ UNCHANGED << g, prev, rs >>
+              THEN cf' = [comp |-> "rect", fmt |-> c.fmt, ch |-> c.ch] /\ skip' = FALSE /\ ins' = << >>
+              ELSE Reject /\ cf' = NoCfg /\ ins' = << >>
        [] Ev.comp = "env" ->
             IF EnvResetOK(c)
-              THEN /\ cf' = [comp |-> "env", fmt |-> c.fmt, ch |-> c.ch, det |-> c.det, n |-> c.n, via |-> c.via] /\ skip' = FALSE
-                   /\ g' = [a |-> Dec(F32, Ev.o.ga), r |-> Dec(F32, Ev.o.gr)]
-                   /\ prev' = [i \in 1..c.ch |-> DZero]                  \* last_env_frame = EQUILIBRIUM
-                   /\ rs' = IF c.det = "rms" THEN [i \in 1..c.ch |-> TInit(c.n)] ELSE << >>
-              ELSE Reject /\ cf' = NoCfg /\ UNCHANGED << g, prev, rs >>
-       [] OTHER -> Reject /\ cf' = NoCfg /\ UNCHANGED << g, prev, rs >>
+              THEN /\ cf' = [comp |-> "env", fmt |-> c.fmt, ch |-> c.ch, det |-> c.det, n |-> c.n, src |-> c.src] /\ skip' = FALSE
+                   /\ ins' = << [g |-> [a |-> Dec(F32, Ev.o.ga), r |-> Dec(F32, Ev.o.gr)],
+                                 prev |-> [i \in 1..c.ch |-> DZero],                  \* last_env_frame = EQUILIBRIUM
+                                 rs |-> IF c.det = "rms" THEN [i \in 1..c.ch |-> TInit(c.n)] ELSE << >>,
+                                 via |-> c.via] >>
+              ELSE Reject /\ cf' = NoCfg /\ ins' = << >>
+       [] OTHER -> Reject /\ cf' = NoCfg /\ ins' = << >>
 TRect ==
   /\ Consume /\ Ev.ev # "reset" /\ ~skip /\ cf.comp = "rect"
   /\ IF Ev.ev = "rect" /\ RectAccept(cf)
-       THEN /\ UNCHANGED << cf, g, prev, rs, skip >>
+       THEN /\ UNCHANGED << cf, ins, skip >>
             /\ (IF Ev.r.k = "panic" \/ HeapOK THEN TRUE ELSE PrintT(<< "HEAP", l, Ev.ev >>))
-       ELSE Reject /\ UNCHANGED << cf, g, prev, rs >>
+       ELSE Reject /\ UNCHANGED << cf, ins >>
+Upd(me2) == ins' = [ins EXCEPT ![Ev.a.i + 1] = me2]                 \* an event changes its own instance only
 TEnv ==
   /\ Consume /\ Ev.ev # "reset" /\ ~skip /\ cf.comp = "env"
-  /\ IF IsNext
+  /\ IF ~IdxOK THEN Reject /\ UNCHANGED << cf, ins >>
+     ELSE IF IsNext
        THEN LET rsn == IF cf.det = "rms" THEN RmsAfter(cf, Ev.a.x) ELSE << >> IN
             IF NextOK(cf, rsn)
-              THEN /\ prev' = [i \in 1..cf.ch |-> AsD(OutFmt(cf), Ev.r.v[i])]
-                   /\ rs' = rsn /\ UNCHANGED << cf, g, skip >>
+              THEN /\ Upd([Me EXCEPT !.prev = [i \in 1..cf.ch |-> AsD(OutFmt(cf), Ev.r.v[i])], !.rs = rsn])
+                   /\ UNCHANGED << cf, skip >>
                    /\ (IF HeapOK THEN TRUE ELSE PrintT(<< "HEAP", l, Ev.ev >>))
-              ELSE Reject /\ UNCHANGED << cf, g, prev, rs >>
+              ELSE Reject /\ UNCHANGED << cf, ins >>
      ELSE IF IsSet /\ SetOK
-       THEN /\ g' = IF Ev.a.which = "attack" THEN [g EXCEPT !.a = Dec(F32, Ev.o.hint)]
-                                             ELSE [g EXCEPT !.r = Dec(F32, Ev.o.hint)]
-            /\ UNCHANGED << cf, prev, rs, skip >>                         \* a setter changes the gain only
+       THEN /\ Upd(IF Ev.a.which = "attack" THEN [Me EXCEPT !.g.a = Dec(F32, Ev.o.hint)]
+                                            ELSE [Me EXCEPT !.g.r = Dec(F32, Ev.o.hint)])   \* a setter changes the gain only
+            /\ UNCHANGED << cf, skip >>
             /\ (IF HeapOK THEN TRUE ELSE PrintT(<< "HEAP", l, Ev.ev >>))
-       ELSE Reject /\ UNCHANGED << cf, g, prev, rs >>
-TNone == Consume /\ Ev.ev # "reset" /\ ~skip /\ cf.comp = "none" /\ Reject /\ UNCHANGED << cf, g, prev, rs >>
-TSkip == Consume /\ Ev.ev # "reset" /\ skip /\ UNCHANGED << cf, g, prev, rs, skip >>
+     \* clones, moves and (un)wrapping are not steady-state calls: no heap conjunct
+     ELSE IF IsClone /\ CloneOK
+       THEN ins' = Append(ins, CloneOf(Me)) /\ UNCHANGED << cf, skip >>      \* the original is untouched
+     ELSE IF (IsMove \/ IsWrap \/ IsParts) /\ Ev.r.k = "unit"
+       THEN /\ Upd([Me EXCEPT !.via = IF IsWrap THEN "signal" ELSE IF IsParts THEN "direct" ELSE @])
+            /\ UNCHANGED << cf, skip >>
+       ELSE Reject /\ UNCHANGED << cf, ins >>
+TNone == Consume /\ Ev.ev # "reset" /\ ~skip /\ cf.comp = "none" /\ Reject /\ UNCHANGED << cf, ins >>
+TSkip == Consume /\ Ev.ev # "reset" /\ skip /\ UNCHANGED << cf, ins, skip >>
 
-TraceInit == l = 1 /\ cf = NoCfg /\ g = [a |-> DZero, r |-> DZero] /\ prev = << >> /\ rs = << >> /\ skip = TRUE
+TraceInit == l = 1 /\ cf = NoCfg /\ ins = << >> /\ skip = TRUE
 TraceNext == TReset \/ TRect \/ TEnv \/ TNone \/ TSkip
 TraceSpec == TraceInit /\ [][TraceNext]_vars
 
